@@ -27,6 +27,17 @@ Section TaffyReal.
   Lemma tosize_from_outer (s : Cache.size T) : tosize (t_from_outer s) = s.
   Proof. destruct s. reflexivity. Qed.
 
+  (* the ghost test `t_is_outer` only accepts outputs that from_outer_size reproduces from their size, when `teq` is an exact equality *)
+  Lemma t_is_outer_spec (teq : T -> T -> bool) (Hteq : forall a b, teq a b = true -> a = b) (o : LayoutOutput T) :
+    t_is_outer teq o = true -> t_from_outer (tosize o) = o.
+  Proof.
+    unfold t_is_outer, t_from_outer, tosize. destruct o as [[sw sh] [cw ch] [bx by_] [tp tn] [bp bn] ct]. cbn.
+    rewrite !andb_true_iff. intros [[[[[[[A B] C] D] E] F] G] I].
+    apply Hteq in A, B, D, E, F, G. subst.
+    destruct bx; [discriminate|]. destruct by_; [discriminate|]. destruct ct; [discriminate|].
+    reflexivity.
+  Qed.
+
   Theorem trl_memo_acct teq f (t : @trtree T) i o t' :
     Forall acct (gcounts _ _ _ t) -> trl_memo teq f t i = Some (o, t') -> Forall acct (gcounts _ _ _ t').
   Proof.
